@@ -103,6 +103,15 @@ CHECKS = {
               "and a freshly constructed container object must report the same index as the live one."),
         technique="TLA+ invariant SelfDescribing checked by TLC + trace validation of embedded schema/package records against the plugin environment",
         design="4/C20"),
+    "C16": dict(
+        text=("PluginOrder.tla defines the order, supports and the registry machine; TLC checks reflexivity, antisymmetry, totality, "
+              "trichotomy, transitivity (all 1.26M triples) and the supports laws exhaustively over 108 references, and RegistryOK "
+              "over all registration orders of five versions; the exported order/supports table is compared entry by entry with real "
+              "PluginRef objects (all comparison operators, hash, sorted, sets) and every registration order is replayed on the real "
+              "schema plugin group through entry points and register_in_group; version-less classes must refuse subclassing; "
+              "entry-point names round trip over a generated grammar."),
+        technique="TLA+ order/registry specification checked exhaustively by TLC + table-driven conformance of PluginRef/PluginGroup + replay of all registration orders",
+        design="4/C16"),
 }
 
 NOT_YET = "check not built yet (work in progress)"
